@@ -420,9 +420,12 @@ MD_SCALE = 100000      # nm -> integer
 MD_TOL = 100           # 1e-3 nm: float32 QCP RMSD noise near zero; real errors are >= 0.1 nm
 
 
-def mdtraj_records(seed, wd, only=None):
+MD_QUICK = (0, 4, 6)    # scenarios of MD_LENGTHS replayed in the quick tier
+
+
+def mdtraj_records(seed, wd, only=None, scenarios=None):
     """Runs in the main process (batch_reassign starts its own pools).
-    only: a scenario number (replay)."""
+    only: a scenario number (replay); scenarios: restrict to these scenario numbers (quick tier)."""
     import warnings
     import mdtraj as md
     from enspara.cluster import util
@@ -434,7 +437,7 @@ def mdtraj_records(seed, wd, only=None):
     real_dbs = util.determine_batch_size
     try:
         for s, lengths in enumerate(MD_LENGTHS):
-            if only is not None and s != only:
+            if (only is not None and s != only) or (scenarios is not None and s not in scenarios):
                 continue
             rng = np.random.RandomState((seed * 1009 + 77 + s) % (2 ** 31 - 1))
             sd = os.path.join(wd, "s%d" % s)
@@ -501,6 +504,177 @@ def mdtraj_records(seed, wd, only=None):
                              "lengths": [], "rowlens": [], "_gen": gen})
     finally:
         util.determine_batch_size = real_dbs
+    return recs
+
+
+# ---------------------------------------------------------------------------
+# file-based batch reassignment: util.reassign(topologies, trajectories, atoms, centers) (B, recorded table)
+#
+# One GROUP = (topology file, list of trajectory files, atom selection string).  The definition the recorded
+# table follows: the distance of a frame to a centre is the RMSD (md.rmsd) between the frame restricted to the
+# atoms selected for ITS group (in topology order) and the centre; centres carry exactly RS_M atoms, the i-th
+# of which is matched with the i-th selected atom.  Every selection below denotes RS_M atoms in every molecule,
+# so one centre list fits every group.
+
+RS_M = 4
+_BB = ["N", "CA", "C", "O"]
+# molecule -> residues (name, atom names); topology file name -> molecule ("A2" is the same molecule in a 2nd file)
+RS_MOLS = {"A": [("ALA", _BB), ("GLY", _BB), ("SER", _BB)],
+           "B": [("ACE", ["CH3", "C"]), ("ALA", _BB), ("GLY", _BB), ("NME", ["N"])]}
+RS_TOPS = {"A": "A", "A2": "A", "B": "B"}
+# selection string -> the atom indices it denotes in each molecule (written out by hand; compared with
+# Topology.select when the files are made: a disagreement is a harness problem, not a verdict)
+RS_SELS = {"resid 1": {"A": [4, 5, 6, 7], "B": [2, 3, 4, 5]},
+           "resid 2": {"A": [8, 9, 10, 11], "B": [6, 7, 8, 9]},
+           "index 1 to 4": {"A": [1, 2, 3, 4], "B": [1, 2, 3, 4]},
+           "(name N or name O) and (resid 1 or resid 2)": {"A": [4, 7, 8, 11], "B": [2, 5, 6, 9]}}
+RS_LENGTHS = [[3, 1, 2], [1], [2, 2], [4, 1], [1, 1, 1], [5], [2, 3], [1, 2], [6, 1]]
+# which selections coincide over the groups (restricted growth strings: every set partition of the groups)
+RS_PATTERNS = {1: [(0,)], 2: [(0, 0), (0, 1)], 3: [(0, 0, 0), (0, 0, 1), (0, 1, 0), (0, 1, 1), (0, 1, 2)]}
+
+
+def _rs_scenarios():
+    """Every assignment of topology files to 1, 2 and 3 groups x every pattern of equal / different selections
+    (1 group: every selection).  The remaining choices (which selections, trajectory lengths, container of the
+    centres, number of centres, forced batch size) come from a fixed pseudo-random stream: the list does not
+    depend on VERIF_SEED (only the coordinates do)."""
+    import itertools
+    srng = np.random.RandomState(20240928)
+    sels = list(RS_SELS)
+    out = []
+    for ng in (1, 2, 3):
+        for tops in itertools.product(sorted(RS_TOPS), repeat=ng):
+            for pat in RS_PATTERNS[ng]:
+                for rot in (range(len(sels)) if ng == 1 else (None,)):
+                    perm = [int(v) for v in srng.permutation(len(sels))]
+                    if rot is not None:
+                        perm = perm[rot:] + perm[:rot]
+                    if srng.rand() < 0.2:        # all trajectories of one length: rectangular result
+                        l = int(srng.randint(1, 4))
+                        lengths = [[l] * int(srng.randint(1, 3)) for _ in range(ng)]
+                    else:
+                        lengths = [list(RS_LENGTHS[int(srng.randint(len(RS_LENGTHS)))]) for _ in range(ng)]
+                    total = sum(sum(x) for x in lengths)
+                    longest = max(max(x) for x in lengths)
+                    K = [1, 2, 3, 5, longest + 1, total + 2][int(srng.randint(6))]
+                    # batch size: the real determine_batch_size (one batch), or forced small ones (several batches)
+                    bsz = [None, None, longest + 1, max(longest + 1, total // 2 + 1), total + 1][int(srng.randint(5))]
+                    out.append({"scenario": len(out), "tops": list(tops), "sels": [sels[perm[p]] for p in pat],
+                                "lengths": lengths, "cform": ["trj", "list"][int(srng.randint(2))], "K": int(K),
+                                "batch_size": bsz, "nprocs": 1})
+    return out
+
+
+RS_SCENARIOS = _rs_scenarios()
+
+
+def _rs_quick(sc):
+    """quick tier: all 1- and 2-group scenarios; 3 groups over the files A and B (every selection pattern) and
+    every third of the rest"""
+    return len(sc["tops"]) < 3 or "A2" not in sc["tops"] or sc["scenario"] % 3 == 0
+
+
+def _rs_topology(mol):
+    import mdtraj as md
+    top = md.Topology()
+    ch = top.add_chain()
+    for rname, atoms in RS_MOLS[mol]:
+        res = top.add_residue(rname, ch)
+        for a in atoms:
+            top.add_atom(a, {"N": md.element.nitrogen, "O": md.element.oxygen}.get(a, md.element.carbon), res)
+    return top
+
+
+def _rs_pieces(x):
+    return [np.asarray(x[i]).ravel() for i in range(len(x))]
+
+
+def reassign_records(seed, wd, select=None, only=None, nprocs=None):
+    """Runs in the main process (reassign starts its own pools).  select: predicate on scenarios;
+    only: a scenario number (replay); nprocs: override the number of loader processes."""
+    import warnings
+    import mdtraj as md
+    from enspara.cluster import util
+    recs = []
+    topfile, topobj = {}, {}
+    for name, mol in sorted(RS_TOPS.items()):
+        top = _rs_topology(mol)
+        topfile[name] = os.path.join(wd, "top%s.pdb" % name)
+        with warnings.catch_warnings():
+            warnings.simplefilter("ignore")
+            md.Trajectory(np.random.RandomState(7).rand(1, top.n_atoms, 3).astype(np.float32), top).save(topfile[name])
+            topobj[name] = md.load(topfile[name]).top
+        for sel, ids in RS_SELS.items():
+            if [int(v) for v in topobj[name].select(sel)] != ids[mol] or len(ids[mol]) != RS_M:
+                raise core.MachineryError("selection %r on %s: expected atoms %s, mdtraj selects %s"
+                                          % (sel, name, ids[mol], topobj[name].select(sel)))
+    ctop = md.Topology()
+    cres = ctop.add_residue("CEN", ctop.add_chain())
+    for i in range(RS_M):
+        ctop.add_atom("C%d" % i, md.element.carbon, cres)
+    real_dbs, real_omp = util.determine_batch_size, os.environ.get("OMP_NUM_THREADS")
+    try:
+        for sc in RS_SCENARIOS:
+            s = sc["scenario"]
+            if (only is not None and s != only) or (select is not None and not select(sc)):
+                continue
+            rng = np.random.RandomState((seed * 2003 + 411 + s) % (2 ** 31 - 1))
+            sd = os.path.join(wd, "r%d_%d" % (s, len(recs)))
+            os.makedirs(sd)
+            trjfiles, frames, flat_lengths = [], [], []
+            with warnings.catch_warnings():
+                warnings.simplefilter("ignore")
+                for g, (tname, sel, lens) in enumerate(zip(sc["tops"], sc["sels"], sc["lengths"])):
+                    top = topobj[tname]
+                    ids = RS_SELS[sel][RS_TOPS[tname]]
+                    trjfiles.append([])
+                    for t, l in enumerate(lens):
+                        f = os.path.join(sd, "g%d_t%d.%s" % (g, t, "xtc"))
+                        md.Trajectory(rng.rand(l, top.n_atoms, 3).astype(np.float32), top).save(f)
+                        trjfiles[-1].append(f)
+                        # what is on disk (xtc is lossy), restricted to this group's atoms
+                        frames.append(md.load(f, top=top).xyz[:, ids, :].copy())
+                        flat_lengths.append(l)
+                X = np.concatenate(frames)
+                cxyz = np.array([X[int(rng.randint(len(X)))] if rng.rand() < 0.6 else rng.rand(RS_M, 3)
+                                 for _ in range(sc["K"])], dtype=np.float32)
+                ref = md.Trajectory(cxyz.copy(), ctop)
+                tab = np.array([md.rmsd(md.Trajectory(X.copy(), ctop), ref, k) for k in range(sc["K"])]).T
+            itab = np.rint(tab * MD_SCALE).astype(int).tolist()
+            # reassign centres its centres in place: hand it fresh copies
+            if sc["cform"] == "trj":
+                centers = md.Trajectory(cxyz.copy(), ctop)
+            else:
+                centers = [md.Trajectory(cxyz[k:k + 1].copy(), ctop) for k in range(sc["K"])]
+            np_ = int(nprocs if nprocs is not None else sc["nprocs"])
+            gen = dict(sc, call="reassign", seed=seed, nprocs=np_)
+            bsz = sc["batch_size"]
+            util.determine_batch_size = real_dbs if bsz is None else \
+                (lambda n_atoms, dtype_bytes, frac_mem, _b=bsz: (_b, 0.0))
+            os.environ["OMP_NUM_THREADS"] = str(np_)      # reassign takes its process count from auto_nprocs()
+            try:
+                with warnings.catch_warnings():
+                    warnings.simplefilter("ignore")
+                    a, d = util.reassign([topfile[t] for t in sc["tops"]], trjfiles, list(sc["sels"]), centers)
+                a, d = _rs_pieces(a), _rs_pieces(d)
+            except Exception as ex:
+                recs.append({"_raised": "%s: %s" % (type(ex).__name__, ex), "_gen": gen, "metric": "table"})
+                continue
+            la, ld = [len(x) for x in a], [len(x) for x in d]
+            dd = np.concatenate([np.asarray(x, dtype=float) for x in d]) if ld else np.zeros(0)
+            fin = bool(np.all(np.isfinite(dd)))
+            recs.append({"kind": "table", "metric": "table", "Y": [], "C": [], "fitted": [],
+                         "tab": itab, "tol": MD_TOL,
+                         "asg": _ints(np.concatenate(a)) if la else [],
+                         "d": [int(v) for v in np.rint(dd * MD_SCALE)] if fin else [-1] * len(dd),
+                         "dexact": fin, "hascidx": False, "cidx": [],
+                         "lengths": flat_lengths, "rowlens": la if la == ld else [-1], "_gen": gen})
+    finally:
+        util.determine_batch_size = real_dbs
+        if real_omp is None:
+            os.environ.pop("OMP_NUM_THREADS", None)
+        else:
+            os.environ["OMP_NUM_THREADS"] = real_omp
     return recs
 
 
